@@ -96,8 +96,12 @@ fn main() {
                 .unwrap();
             rt.block_on(async {
                 for path in read_lines(&args[2]) {
-                    if let Err(e) =
+                    let r = if path["concurrent"] == true {
+                        sync_world::run_concurrent_path(&path, &scratch, &mut out, &prop, &known).await
+                    } else {
                         sync_world::run_path(&path, &scratch, &mut out, &prop, &known).await
+                    };
+                    if let Err(e) = r
                     {
                         eprintln!("harness error: {e:?}");
                         std::process::exit(3);
